@@ -79,3 +79,181 @@ Proof.
   exists w_double_rounding. eexists. split; [repeat split|]. split; [vm_compute; reflexivity|].
   vm_compute. discriminate.
 Qed.
+
+(* ------------------------------------------------------------------------------------------ *)
+(* closeness calculus                                                                          *)
+(* ------------------------------------------------------------------------------------------ *)
+Definition cl (e x y : Q) : Prop := Qabs (x - y) <= e.
+
+#[global] Instance cl_proper : Proper (Qeq ==> Qeq ==> Qeq ==> iff) cl.
+Proof. intros e e' He x x' Hx y y' Hy. unfold cl. rewrite He, Hx, Hy. reflexivity. Qed.
+
+Lemma cl_refl x : cl 0 x x.
+Proof. unfold cl. setoid_replace (x - x) with 0 by ring. cbn. discriminate. Qed.
+
+Lemma cl_weaken a b x y : cl a x y -> a <= b -> cl b x y.
+Proof. unfold cl. intros H L. eapply Qle_trans; eassumption. Qed.
+
+Lemma cl_nonneg a x y : cl a x y -> 0 <= a.
+Proof. unfold cl. intros H. eapply Qle_trans; [apply Qabs_nonneg|exact H]. Qed.
+
+Lemma cl_plus a b x y z w : cl a x y -> cl b z w -> cl (a + b) (x + z) (y + w).
+Proof.
+  unfold cl. intros H1 H2. apply Qabs_Qle_condition in H1. apply Qabs_Qle_condition in H2.
+  apply Qabs_Qle_condition. split; lra.
+Qed.
+
+Lemma cl_minus a b x y z w : cl a x y -> cl b z w -> cl (a + b) (x - z) (y - w).
+Proof.
+  unfold cl. intros H1 H2. apply Qabs_Qle_condition in H1. apply Qabs_Qle_condition in H2.
+  apply Qabs_Qle_condition. split; lra.
+Qed.
+
+Lemma cl_opp a x y : cl a x y -> cl a (- x) (- y).
+Proof.
+  unfold cl. intros H1. apply Qabs_Qle_condition in H1. apply Qabs_Qle_condition. split; lra.
+Qed.
+
+Lemma cl_mult a x y p : cl a x y -> Qabs p <= 1 -> cl a (x * p) (y * p).
+Proof.
+  unfold cl. intros H P. setoid_replace (x * p - y * p) with ((x - y) * p) by ring.
+  rewrite Qabs_Qmult. pose proof (Qabs_nonneg (x - y)). pose proof (Qabs_nonneg p).
+  set (u := Qabs (x - y)) in *. set (v := Qabs p) in *. nra.
+Qed.
+
+Lemma rnd_error e q : Qabs (rnd e q - q) <= (1 # 2) * unitQ e.
+Proof. exact (roundQ_error e q). Qed.
+
+Lemma cl_rnd e a x y : cl a x y -> cl (a + (1 # 2) * unitQ e) (rnd e x) y.
+Proof.
+  unfold cl. intros H. pose proof (rnd_error e x) as K.
+  apply Qabs_Qle_condition in H. apply Qabs_Qle_condition in K. apply Qabs_Qle_condition. split; lra.
+Qed.
+
+(* half a unit of the (c+2)-th decimal: the error of one rounding at working precision *)
+Definition eps (c : nat) : Q := (1 # 2) * unitQ (c + 2).
+
+Lemma eps_pos c : 0 < eps c.
+Proof. unfold eps. pose proof (unitQ_pos (c + 2)). lra. Qed.
+
+Lemma half_unit_le_eps c w : (c + 2 <= w)%nat -> (1 # 2) * unitQ w <= eps c.
+Proof. intros H. unfold eps. pose proof (unitQ_mono (c + 2) w H). lra. Qed.
+
+Lemma cl_rnd_w c w a x y : (c + 2 <= w)%nat -> cl a x y -> cl (a + eps c) (rnd w x) y.
+Proof.
+  intros W H. eapply cl_weaken; [apply cl_rnd, H|]. pose proof (half_unit_le_eps c w W). lra.
+Qed.
+
+Definition nQ (n : nat) : Q := inject_Z (Z.of_nat n).
+Lemma nQ_S n : nQ (S n) == nQ n + 1.
+Proof. unfold nQ. rewrite Nat2Z.inj_succ, <- Z.add_1_r, inject_Z_plus. reflexivity. Qed.
+Lemma nQ_nonneg n : 0 <= nQ n.
+Proof. unfold nQ. change 0 with (inject_Z 0). rewrite <- Zle_Qle. lia. Qed.
+Lemma nQ_app {A} (l1 l2 : list A) : nQ (length (l1 ++ l2)) == nQ (length l1) + nQ (length l2).
+Proof. unfold nQ. rewrite app_length, Nat2Z.inj_add, inject_Z_plus. reflexivity. Qed.
+
+(* sums: element-wise closeness with a uniform bound *)
+Lemma cl_sum_uniform a xs ys : Forall2 (cl a) xs ys -> cl (nQ (length xs) * a) (sumQl xs) (sumQl ys).
+Proof.
+  intros F. induction F as [|x y r s H _ IH]; cbn [sumQl fold_right length].
+  - setoid_replace (nQ 0 * a) with 0 by (unfold nQ; cbn; ring). apply cl_refl.
+  - rewrite nQ_S. setoid_replace ((nQ (length r) + 1) * a) with (a + nQ (length r) * a) by ring.
+    apply cl_plus; assumption.
+Qed.
+
+(* ------------------------------------------------------------------------------------------ *)
+(* simple documents: the features whose rounding points are the documented ones                *)
+(* ------------------------------------------------------------------------------------------ *)
+Definition pct_ok (p : option amount) : Prop :=
+  match p with Some q => Qabs (toQ q) <= 1 | None => True end.
+(* no rate x quantity; a percentage of at most 100% either way *)
+Definition simple_row (d : ldc) : Prop := ld_rate d = None /\ pct_ok (ld_pct d).
+(* priced in the document's currency, or by an alternative price in it *)
+Definition unconverted (cur : Z) (it : item) : Prop :=
+  match it_cur it with
+  | None => True
+  | Some (ic, _) => ic = cur \/ find_alt cur (it_alts it) <> None
+  end.
+Definition simple_line (cur : Z) (l : line) : Prop :=
+  ln_breakdown l = [] /\ unconverted cur (ln_item l) /\
+  Forall simple_row (ln_discounts l) /\ Forall simple_row (ln_charges l).
+
+(* error budget of a line total, in units of eps: one for the product, three per row *)
+Definition e_line (l : line) : Q := 1 + 3 * nQ (length (ln_discounts l)) + 3 * nQ (length (ln_charges l)).
+
+Lemma price_unconverted R c cur rates it : unconverted cur it ->
+  exists P, s_item_price R c cur rates it = Some P /\ s_item_price noround c cur rates it = Some P.
+Proof.
+  unfold unconverted, s_item_price. destruct (it_cur it) as [[ic isub]|]; [|intros _; eexists; split; reflexivity].
+  intros [E|E].
+  - subst ic. rewrite Z.eqb_refl. eexists; split; reflexivity.
+  - destruct (ic =? cur)%Z; [eexists; split; reflexivity|].
+    destruct (find_alt cur (it_alts it)); [eexists; split; reflexivity|congruence].
+Qed.
+
+Lemma nonzero_pct_ok p x : pct_ok p -> nonzero_pct p = Some x -> Qabs x <= 1.
+Proof.
+  unfold pct_ok, nonzero_pct. destruct p as [q|]; [|discriminate].
+  destruct (Qeq_bool (toQ q) 0); [discriminate|]. intros H E. injection E as <-. exact H.
+Qed.
+
+Lemma s_row_close c sum sum' q ch d : simple_row d ->
+  cl (eps c) (fq sum) (fq sum') -> fp sum' = fp sum -> (c + 2 <= fp sum)%nat ->
+  cl (2 * eps c) (fq (s_row rnd false c sum q ch d)) (fq (s_row noround false c sum' q ch d)).
+Proof.
+  intros [NR PO] CS EP W. unfold s_row. rewrite NR.
+  replace (if ch then _ else _) with
+    (match nonzero_pct (ld_pct d) with
+     | Some p => prod rnd match ld_base d with Some b => s_base rnd false c b | None => sum end p
+     | None => of_amount (ld_amount d) end) by (destruct ch; reflexivity).
+  replace (if ch then _ else _) with
+    (match nonzero_pct (ld_pct d) with
+     | Some p => prod noround match ld_base d with Some b => s_base noround false c b | None => sum' end p
+     | None => of_amount (ld_amount d) end) by (destruct ch; reflexivity).
+  unfold settle. cbn [raise fq]. pose proof (eps_pos c) as EPS.
+  destruct (nonzero_pct (ld_pct d)) as [p|] eqn:NP.
+  - pose proof (nonzero_pct_ok _ _ PO NP) as P1. unfold prod. cbn [fq fp]. unfold noround at 1.
+    destruct (ld_base d) as [b|].
+    + unfold s_base. cbn [raise fq fp of_amount].
+      eapply cl_weaken; [apply (cl_rnd_w c); [lia|apply cl_refl]|lra].
+    + setoid_replace (2 * eps c) with (eps c + eps c) by ring.
+      apply (cl_rnd_w c); [exact W|]. apply cl_mult; assumption.
+  - eapply cl_weaken; [apply cl_refl|lra].
+Qed.
+
+Lemma s_rows_close c sum sum' q ch ds : Forall simple_row ds ->
+  cl (eps c) (fq sum) (fq sum') -> fp sum' = fp sum -> (c + 2 <= fp sum)%nat ->
+  Forall2 (cl (3 * eps c))
+    (map (fun x => rnd (fp sum) (fq x)) (map (s_row rnd false c sum q ch) ds))
+    (map (fun x => noround (fp sum') (fq x)) (map (s_row noround false c sum' q ch) ds)).
+Proof.
+  intros F CS EP W. induction F as [|d r H _ IH]; cbn [map]; constructor; [|exact IH].
+  unfold noround at 1. setoid_replace (3 * eps c) with (2 * eps c + eps c) by ring.
+  apply (cl_rnd_w c); [exact W|]. apply s_row_close; assumption.
+Qed.
+
+Lemma s_line_close c cur rates l : simple_line cur l ->
+  exists il il', s_line rnd false c cur rates l = Some il /\ s_line noround false c cur rates l = Some il' /\
+    cl (e_line l * eps c) (fq (il_total il)) (fq (il_total il')) /\ (c + 2 <= fp (il_total il))%nat.
+Proof.
+  intros (B & U & FD & FC). unfold s_line. rewrite B. cbn [s_subs].
+  destruct (price_unconverted rnd c cur rates (ln_item l) U) as (P & E1 & E2). rewrite E1, E2.
+  eexists. eexists. split; [reflexivity|]. split; [reflexivity|].
+  cbn [il_total]. unfold wmin, settle.
+  set (sum := raise c (prod rnd (raise (c + 2) P) (toQ (ln_qty l)))).
+  set (sum' := raise c (prod noround (raise (c + 2) P) (toQ (ln_qty l)))).
+  assert (W : (c + 2 <= fp sum)%nat) by (unfold sum; cbn [raise prod fp]; lia).
+  assert (EP : fp sum' = fp sum) by reflexivity.
+  assert (CS : cl (eps c) (fq sum) (fq sum')).
+  { unfold sum, sum'. cbn [raise prod fq fp]. unfold noround.
+    setoid_replace (eps c) with (0 + eps c) by ring. apply (cl_rnd_w c); [lia|apply cl_refl]. }
+  split; [|exact W].
+  unfold s_total. cbn [fq fp].
+  pose proof (cl_sum_uniform _ _ _ (s_rows_close c sum sum' (toQ (ln_qty l)) false _ FD CS EP W)) as SD.
+  pose proof (cl_sum_uniform _ _ _ (s_rows_close c sum sum' (toQ (ln_qty l)) true _ FC CS EP W)) as SC.
+  rewrite !map_length in SD, SC.
+  unfold e_line.
+  setoid_replace ((1 + 3 * nQ (length (ln_discounts l)) + 3 * nQ (length (ln_charges l))) * eps c)
+    with (eps c + nQ (length (ln_discounts l)) * (3 * eps c) + nQ (length (ln_charges l)) * (3 * eps c)) by ring.
+  apply cl_plus; [apply cl_minus|]; assumption.
+Qed.
